@@ -122,9 +122,9 @@ def combine_batch(tables_path, out_path, workdir):
 
 
 # ----------------------------------------------------------------------------- C07: snapping routine on exact linear models
-def _snap_model(k):
+def _snap_model(k, scale=1.0):
     import numpy as np
-    x = np.linspace(0.5, 2.5, 12)
+    x = np.linspace(0.5, 2.5, 12) * scale          # scale << 1: badly scaled abscissa (default Hessian step too small, fallback steps needed)
     cols = {1: [x], 2: [x, np.ones_like(x)], 3: [x, np.ones_like(x), x * x]}[k]
     fstr = {1: "a0*x", 2: "a0*x + a1", 3: "a0*x + a1 + a2*x**2"}[k]
     return x, np.array(cols).T, fstr
@@ -143,7 +143,7 @@ def snap_batch(cases_path, out_path, workdir):
     likes = {}
     for c in cases:
         k = c["k"]
-        x, Phi, fstr = _snap_model(k)
+        x, Phi, fstr = _snap_model(k, c.get("scale", 1.0))
         I = Phi.T @ Phi / sigma ** 2
         thr = np.sqrt(12.0 / np.diag(I))
         theta = np.zeros(k)
